@@ -161,3 +161,59 @@ def functions_calling(P, unit, callee, member_arg=True):
                 out.append(f)
                 break
     return out
+
+
+class _PendingFlow(Flow):
+    def __init__(self, f, acq, rel):
+        Flow.__init__(self, f)
+        self.acq, self.rel = acq, rel
+        self.at_return = {}
+
+    def init(self):
+        return False
+
+    def join(self, a, b):
+        return a or b
+
+    def elem(self, st, n):
+        if self.rel(n):
+            return False
+        if self.acq(n):
+            return True
+        if n["k"] == "Return" and self.recording:
+            self.at_return[n["id"]] = st
+        return st
+
+
+def bit_op(n, field, bit, setting):
+    """is node n `X->field |= bit` (setting) / `X->field &= ~bit` (clearing)?  bit: integer value"""
+    a = assigned(n)
+    if not a or a[2] is None:
+        return False
+    t = strip(a[0])
+    if t["k"] != "Member" or t["f"] != field:
+        return False
+    v = cval(strip(a[2]))
+    if v is None:
+        return False
+    if setting:
+        return a[1] == "|=" and (v & bit) != 0
+    return a[1] == "&=" and (v & bit) == 0 and (~v & bit) != 0
+
+
+def released_on_all_exits(chk, P, fname, unit, acq, rel, rule, construct, detail):
+    """pairing: once acq(node) has happened, every return of the function is preceded by rel(node) (may-dataflow)"""
+    f = P.need_func(fname, unit)
+    if not chk.need(any(acq(n) for n in f.walk()), "%s: the acquire statement vanished from %s" % (rule, fname)):
+        return 0
+    fl = _PendingFlow(f, acq, rel)
+    fl.run()
+    n = 0
+    for r in returns(f):
+        if r["id"] not in fl.at_return:
+            continue
+        n += 1
+        pend = fl.at_return[r["id"]]
+        k = sum(1 for r2 in returns(f) if (r2.get("l", 0), r2["id"]) <= (r.get("l", 0), r["id"]))
+        chk.inst(rule, f, "%s:return#%d" % (construct, k), not pend, detail + ("" if not pend else " -- this return is reachable with it still set"), loc=f.loc(r))
+    return n
